@@ -248,7 +248,8 @@ class ImportAnalyzer:
             file = self._load_file(path.with_suffix(".json"), level)
             if isinstance(file, FileInput):
                 file = try_parse_abi(file)
-            assert isinstance(file, JSONInput)  # mypy hint
+            if not isinstance(file, JSONInput):
+                raise StructureException(f"`{file.path}` does not contain valid json")
 
             return file, file.data
         except FileNotFoundError:
